@@ -55,12 +55,20 @@ def _serialize_check_stats(check_stats, dtype=None):
     """Serialize check statistics into json/yaml-compatible format."""
 
     def handle_stat_dtype(stat):
-        if pandas_engine.Engine.dtype(dtypes.DateTime).check(
-            dtype
+        if (
+            pandas_engine.Engine.dtype(dtypes.DateTime).check(dtype)
+            or dtypes.is_datetime(dtype)
         ) and hasattr(stat, "strftime"):
             # try serializing stat as a string if it's datetime-like,
             # otherwise return original value
-            return stat.strftime(DATETIME_FORMAT)
+            plain = stat.strftime(DATETIME_FORMAT)
+            try:
+                exact = pd.Timestamp(plain) == stat
+            except TypeError:  # timezone-aware statistic
+                exact = False
+            # the plain format drops sub-second precision and the utc
+            # offset: fall back to the ISO format when that loses information
+            return plain if exact else stat.isoformat(sep=" ")
         elif pandas_engine.Engine.dtype(dtypes.Timedelta).check(dtype):
             # try serializing stat into an int in nanoseconds if it's
             # timedelta-like, otherwise return original value
@@ -199,8 +207,14 @@ def _deserialize_check_stats(check, serialized_check_stats, dtype=None):
 
     def handle_stat_dtype(stat):
         try:
-            if pandas_engine.Engine.dtype(dtypes.DateTime).check(dtype):
-                return pd.to_datetime(stat, format=DATETIME_FORMAT)
+            if pandas_engine.Engine.dtype(dtypes.DateTime).check(
+                dtype
+            ) or dtypes.is_datetime(dtype):
+                try:
+                    return pd.to_datetime(stat, format=DATETIME_FORMAT)
+                except (TypeError, ValueError):
+                    # ISO format (sub-second precision, utc offset)
+                    return pd.to_datetime(stat)
             elif pandas_engine.Engine.dtype(dtypes.Timedelta).check(dtype):
                 # serialize to int in nanoseconds
                 return pd.to_timedelta(stat, unit="ns")
